@@ -411,7 +411,12 @@ def rule_loop(ck, rid="C01.R6"):
                sink="pop-first")
 
     # (b) every popped event is recorded and processed
-    fors = [n for n in body if n.kind == "for" and call_name(fl.expand(n.expr, n)) == "get_current_events"]
+    def unseq(e):
+        # iterating list(X) / tuple(X) / iter(X) is iterating X
+        while isinstance(e, ast.Call) and call_name(e) in ("list", "tuple", "iter") and len(e.args) == 1 and not e.keywords and isinstance(e.func, ast.Name):
+            e = e.args[0]
+        return e
+    fors = [n for n in body if n.kind == "for" and call_name(unseq(fl.expand(n.expr, n))) == "get_current_events"]
     ck.require(len(fors) == 1, rid + "b", run0, fors[0].stmt.iter if fors else "for e in current_events",
                bad="loop over the popped events not found", sink="event-loop")
     if len(fors) != 1:
